@@ -98,6 +98,32 @@
 (*    tobs (polynomial data on 5 x 5 nodes: rev, perm, subu, rep, repu,     *)
 (*    shiftu, mixu), steady (omode perm / pick) and time (explu, finalrev). *)
 (*                                                                         *)
+(*    "solve": SEVERAL PARAMETERS RUN THROUGH ONE TIME-DEPENDENT OBJECT.     *)
+(*       Assemble(p1) Solve Assemble(p2) Solve ... (and Solve twice) on the  *)
+(*       PDE object, Forward(p1) Forward(p2) Gradient(p) through PDEModel,   *)
+(*       on time grids with ONE, two and three steps (rational and integer   *)
+(*       levels), one and two nodes, both methods; operator, source AND      *)
+(*       initial condition depend on the parameter and on time               *)
+(*       (A = A0 + t A1 + th1 A2).  Solve is implementation shaped: it goes  *)
+(*       through the assemble_step calls of solve() and the object keeps the *)
+(*       step system <<time, parameter>> it holds BETWEEN the calls (field   *)
+(*       `asm`).  SeqSolveCurrent: every solution satisfies the documented   *)
+(*       recurrence, from the initial condition, for the parameter assembled *)
+(*       LAST; SeqSensCurrent: the Jacobian a Gradient call is answered with *)
+(*       satisfies the differentiated recurrence at the parameter of THAT    *)
+(*       call.                                                               *)
+(*                                                                         *)
+(* WHERE THE GRIDS LIE ON THE AXIS (kinds sobs / tobs, field xf): the nodes *)
+(*    are x = om 2^oe + 2^se xi for the reference nodes xi - translated by   *)
+(*    0, +-2^10, +-2^20, scaled by 2^-30 .. 2^20 (powers of two: the nodes   *)
+(*    are exact floating point numbers).  Interpolation commutes with an     *)
+(*    affine change of variable, so the observation does NOT depend on xf    *)
+(*    (ObsAffine: checked by TLC for every xf whose nodes fit 32-bit         *)
+(*    rationals); 'the grids are equal' means equal node for node, so an     *)
+(*    observation grid staggered by a fraction of a cell is interpolated     *)
+(*    WHATEVER the magnitude of the nodes (SobsImplExact / TobsImplExact on  *)
+(*    the implementation-shaped observation ObsImplS / ObsImplT).            *)
+(*                                                                         *)
 (* Named deviations (off in the deciding configurations):                  *)
 (*    OperatorAtOldTime : backward Euler assembles at t_idx instead of      *)
 (*                        t_idx+1  -> the discrete equation is violated     *)
@@ -115,6 +141,17 @@
 (*                        of the solution nodes that are observation nodes - *)
 (*                        the values come in the order of the SOLUTION grid  *)
 (*                        -> SeqObserveCurrent (SteadyObserve) is violated   *)
+(*    DevStaleStepSystem : assemble_step(t) returns early when the object     *)
+(*                        holds a step system assembled at the same time t - *)
+(*                        and nothing resets that between two solves: with a *)
+(*                        single forward Euler step the second parameter is  *)
+(*                        solved with the system of the first                *)
+(*                        -> SeqSolveCurrent is violated                      *)
+(*    DevEqualWithinTolerance : 'grids equal' / 'time_obs is the final time' *)
+(*                        decided with a tolerance relative to the magnitude *)
+(*                        of the nodes (2^-16 |x|) -> a staggered grid far    *)
+(*                        from the origin is restricted instead of           *)
+(*                        interpolated: SobsImplExact / TobsImplExact fail   *)
 (***************************************************************************)
 EXTENDS MatQ, FiniteSets, TLC, Json
 
@@ -133,7 +170,10 @@ CONSTANTS Level,               \* 1 quick, 2 thorough (more parameters / grids /
           DevAssembleSkipsSameObject,   \* deviation: "assemble returns early for the parameter OBJECT assembled last"
           DevSetterSkipsSameObject,     \* deviation: "a grid setter given the array object it holds keeps the cached flag"
           OrdDepth,            \* mode "order": number of calls (SetGridObs / SetGridSol / SetTimeObs / Observe / Forward)
-          DevObserveInSolutionOrder     \* deviation: "observation nodes that are all solution nodes are read off with a mask"
+          DevObserveInSolutionOrder,    \* deviation: "observation nodes that are all solution nodes are read off with a mask"
+          SolveDepth,          \* mode "solve": number of calls (Assemble / Solve; Forward / Gradient: SolveDepth - 2)
+          DevStaleStepSystem,  \* deviation: "assemble_step(t) keeps the step system it holds when that was assembled at the same time t"
+          DevEqualWithinTolerance       \* deviation: "grids (final time) are taken for equal when they agree within a relative tolerance"
 
 VARIABLES pb,      \* the problem
           ph,      \* "new" / "run"
@@ -160,7 +200,9 @@ SteadyMats ==
       [n |-> 2, A0 |-> <<<<1, 2>>, <<0, 1>>>>, A1 |-> <<<<0, 0>>, <<1, 1>>>>, A2 |-> <<<<1, 0>>, <<0, -1>>>>,
        f0 |-> <<0, 2>>, f1 |-> <<1, 1>>, f2 |-> <<0, 0>>, grid |-> <<Zero, Q(1, 2)>>],
       [n |-> 3, A0 |-> Pois3, A1 |-> <<<<1, 0, 0>>, <<0, 0, 0>>, <<0, 0, 1>>>>, A2 |-> <<<<0, 1, 0>>, <<1, 0, 0>>, <<0, 0, 0>>>>,
-       f0 |-> <<1, 0, -1>>, f1 |-> <<0, 1, 0>>, f2 |-> <<1, 1, 1>>, grid |-> <<Zero, Q(1, 2), Two>>] }
+       f0 |-> <<1, 0, -1>>, f1 |-> <<0, 1, 0>>, f2 |-> <<1, 1, 1>>, grid |-> <<Zero, Q(1, 2), Two>>],
+      \* boundary size: a SINGLE node (3 + th1 - th2 is singular on part of the lattice: filtered by Solvable)
+      [n |-> 1, A0 |-> <<<<3>>>>, A1 |-> <<<<1>>>>, A2 |-> <<<<-1>>>>, f0 |-> <<2>>, f1 |-> <<1>>, f2 |-> <<3>>, grid |-> <<Q(1, 2)>>] }
     \cup (IF Level < 2 THEN {} ELSE
     { [n |-> 3, A0 |-> <<<<1, 1, 0>>, <<0, 1, -1>>, <<1, 0, 2>>>>, A1 |-> <<<<0, 0, 1>>, <<0, 1, 0>>, <<0, 0, 0>>>>,
        A2 |-> <<<<1, 0, 0>>, <<0, 0, 0>>, <<0, 1, 0>>>>,
@@ -283,7 +325,8 @@ EmitSteady ==
 (***************************************************************************)
 (* time dependent                                                          *)
 (***************************************************************************)
-Grids == { <<Zero, Q(1, 2), One, Two>>, <<Zero, One, Q(3, 2), Two, R(4)>> }
+\* (the last one: boundary size, a SINGLE time step)
+Grids == { <<Zero, Q(1, 2), One, Two>>, <<Zero, One, Q(3, 2), Two, R(4)>>, <<Q(1, 2), Two>> }
          \cup (IF Level < 2 THEN {} ELSE { <<RNeg(One), Q(-1, 2), Q(1, 2)>>, <<Zero, Q(1, 2), Q(3, 2), Two>> })
 
 TimeMats ==
@@ -298,7 +341,10 @@ TimeMats ==
       [n |-> 4, A0 |-> <<<<-1, 0, 0, 0>>, <<1, -1, 0, 0>>, <<0, 1, -1, 0>>, <<0, 0, 1, -1>>>>,
        A1 |-> <<<<0, 0, 0, 0>>, <<1, 0, 0, 0>>, <<0, 0, 0, 0>>, <<0, 0, 1, 0>>>>,
        f0 |-> <<1, 0, 0, 0>>, f1 |-> <<0, 0, 1, 0>>, Fth |-> <<<<1, 0>>, <<0, 0>>, <<0, 1>>, <<0, 0>>>>, c0 |-> <<1, 0, 0, 2>>,
-       U0 |-> <<<<1, 0>>, <<0, 1>>, <<1, 1>>, <<0, 0>>>>, w |-> <<1, -1, 2, 4>>, x |-> <<Zero, Q(1, 2), One, Two>>] }
+       U0 |-> <<<<1, 0>>, <<0, 1>>, <<1, 1>>, <<0, 0>>>>, w |-> <<1, -1, 2, 4>>, x |-> <<Zero, Q(1, 2), One, Two>>],
+      \* boundary size: a SINGLE node
+      [n |-> 1, A0 |-> <<<<-1>>>>, A1 |-> <<<<-1>>>>, f0 |-> <<1>>, f1 |-> <<2>>, Fth |-> <<<<1, -1>>>>, c0 |-> <<2>>,
+       U0 |-> <<<<1, 1>>>>, w |-> <<3>>, x |-> <<Q(1, 2)>>] }
 
 ThetaT == IF Level < 2 THEN {<<1, -1>>, <<0, 2>>} ELSE {<<1, -1>>, <<0, 2>>, <<0, 0>>, <<2, 1>>, <<-1, -2>>}
 
@@ -437,12 +483,16 @@ GObsSet == [same |-> XGrid, sub |-> << XGrid[2], XGrid[5] >>, shift |-> << Q(1, 
             rev |-> Rev(XGrid), perm |-> << XGrid[3], XGrid[1], XGrid[5], XGrid[2], XGrid[4] >>,
             subu |-> << XGrid[4], XGrid[2] >>, rep |-> << XGrid[2], XGrid[2], XGrid[4] >>,
             repu |-> << XGrid[4], XGrid[2], XGrid[4] >>, shiftu |-> << Q(5, 2), Q(1, 4), Q(3, 2) >>,
-            mixu |-> << XGrid[4], Q(3, 4), XGrid[2] >>]
+            mixu |-> << XGrid[4], Q(3, 4), XGrid[2] >>,
+            \* stag: as many nodes as the solution grid, EVERY node staggered by half a cell (a quarter where the cell is 1/2)
+            stag |-> << Q(1, 4), Q(3, 4), Q(3, 2), Q(5, 2), Q(11, 4) >>]
 TObsSet == [final |-> << TGrid[5] >>, all |-> TGrid, sub |-> << TGrid[2], TGrid[4] >>, shift |-> << Q(1, 2), Q(7, 4) >>,
             one |-> << Q(3, 4) >>,
             allrev |-> Rev(TGrid), subu |-> << TGrid[4], TGrid[2] >>, finu |-> << TGrid[5], TGrid[2] >>,
             rep |-> << TGrid[2], TGrid[2], TGrid[5] >>, shiftu |-> << Q(7, 4), Q(1, 2) >>,
-            mixu |-> << TGrid[5], Q(3, 4), TGrid[2] >>]
+            mixu |-> << TGrid[5], Q(3, 4), TGrid[2] >>,
+            \* near: ONE time close to the final time (not the final time); tstag: as many times as levels, none of them a level
+            near |-> << Q(15, 8) >>, tstag |-> << Q(1, 8), Q(1, 2), Q(5, 4), Q(7, 4), Q(15, 8) >>]
 GOld == {"same", "sub", "shift", "shift5"}
 TOld == {"final", "all", "sub", "shift", "one"}
 GOrd == {"rev", "perm", "subu", "rep", "repu", "shiftu", "mixu"}
@@ -450,9 +500,43 @@ TOrd == {"allrev", "subu", "finu", "rep", "shiftu", "mixu"}
 \* all pairs of the ascending grids / times; every ORDER grid with the times final / all / unsorted; every ORDER time
 \* sequence with the grids same / sub / shift
 TobsPairs == (GOld \X TOld) \cup (GOrd \X {"final", "all", "subu", "shiftu"}) \cup ({"same", "sub", "shift"} \X TOrd)
+             \cup {<<"stag", "final">>, <<"stag", "all">>, <<"stag", "near">>, <<"same", "near">>, <<"same", "tstag">>, <<"stag", "tstag">>}
+
+\* ---- where the grids lie on the axis ---------------------------------------------------------------------
+\* x = om 2^oe + 2^se xi (xi: the reference nodes above), the same change of variable for the solution grid and the
+\* observation grid (for the time levels and the observation times).  Powers of two: the nodes are exact binary
+\* floating point numbers, so the replayer builds exactly these grids.
+XfSet == [id |-> [om |-> 0, oe |-> 0, se |-> 0],
+          t10 |-> [om |-> 1, oe |-> 10, se |-> 0],         \* translated by 2^10 ~ 1e3
+          t20 |-> [om |-> 1, oe |-> 20, se |-> 0],         \* translated by 2^20 ~ 1e6
+          n20 |-> [om |-> -1, oe |-> 20, se |-> 0],        \* translated by -2^20
+          sm20 |-> [om |-> 0, oe |-> 0, se |-> -20],       \* scaled by 2^-20 ~ 1e-6
+          sm30 |-> [om |-> 0, oe |-> 0, se |-> -30],       \* scaled by 2^-30 ~ 1e-9
+          s20 |-> [om |-> 0, oe |-> 0, se |-> 20],         \* scaled by 2^20 (integer nodes)
+          t10sm6 |-> [om |-> 1, oe |-> 10, se |-> -6],     \* cells of 2^-7 at 2^10 (half a cell = 4e-6 |x|)
+          t20sm10 |-> [om |-> 1, oe |-> 20, se |-> -10],   \* cells of 2^-11 at 2^20 (half a cell = 2e-10 |x|)
+          n10s3 |-> [om |-> -1, oe |-> 10, se |-> 3]]
+XfNames == IF Level < 2 THEN {"t10", "t20", "n20", "sm20", "sm30", "s20", "t10sm6", "t20sm10"}
+           ELSE {"t10", "t20", "n20", "sm20", "sm30", "s20", "t10sm6", "t20sm10", "n10s3"}
+RECURSIVE IPow2(_)
+IPow2(k) == IF k = 0 THEN 1 ELSE 2 * IPow2(k - 1)
+Pow2(k)  == IF k >= 0 THEN R(IPow2(k)) ELSE <<1, IPow2(0 - k)>>
+Aff(xf, x)    == QAdd(R(xf.om * IPow2(xf.oe)), QMul(Pow2(xf.se), x))
+AffSeq(xf, X) == F([i \in 1..Len(X) |-> Aff(xf, X[i])])
+\* the transformed nodes (quarters in space, eighths in time) and the products of their differences fit 32-bit rationals;
+\* for the others (sm30, t20sm10) the replayer relies on ObsAffine as a theorem
+XfRep(xf) == (IF xf.om = 0 THEN 0 ELSE xf.oe) - xf.se <= 24
+\* grids / times observed under a change of variable (quick: one polynomial, identity map for the time class)
+XfGrids == {"same", "stag", "shift5", "sub"}
+XfPairs == {<<"same", "final">>, <<"same", "near">>, <<"stag", "final">>, <<"shift5", "final">>, <<"stag", "near">>,
+            <<"same", "tstag">>, <<"stag", "all">>}
+Poly2X == <<<<1, 0, 2, -1>>, <<0, -3, 1, 0>>, <<2, 1, 0, 1>>, <<-1, 0, 1, 2>>>>
+Poly1X == <<<<1>>, <<-2>>, <<3>>>>
 
 TobsCases ==
-    { [kind |-> "tobs", c |-> c, g |-> gt[1], t |-> gt[2], omap |-> mp] : c \in Polys2, gt \in TobsPairs, mp \in {"id", "sq"} }
+    { [kind |-> "tobs", c |-> c, g |-> gt[1], t |-> gt[2], omap |-> mp, xf |-> "id"] : c \in Polys2, gt \in TobsPairs, mp \in {"id", "sq"} }
+    \cup { [kind |-> "tobs", c |-> Poly2X, g |-> gt[1], t |-> gt[2], omap |-> mp, xf |-> xf] :
+             gt \in XfPairs, mp \in (IF Level < 2 THEN {"id"} ELSE {"id", "sq"}), xf \in XfNames }
 
 DataT(c) == F([i \in 1..Len(XGrid) |-> [j \in 1..Len(TGrid) |-> Poly2(c, XGrid[i], TGrid[j])]])
 ExpectT(k) == F([i \in 1..Len(GObsSet[k.g]) |-> [j \in 1..Len(TObsSet[k.t]) |-> Poly2(k.c, GObsSet[k.g][i], TObsSet[k.t][j])]])
@@ -475,11 +559,33 @@ TobsExact ==
                      DS == F([i \in 1..4 |-> [j \in 1..4 |-> D[IndexIn(XGrid, XS[i])][IndexIn(TGrid, TS[j])]]])
                  IN \A i \in 1..Len(G) : \A j \in 1..Len(TO) : Lag2(XS, TS, DS, G[i], TO[j]) = E[i][j]
 
-TobsMapped(k) == k.g \in {"same", "sub", "shift"} /\ k.t \in TOld
+\* ---- the observation as the call computes it (implementation shaped), on the grids where they LIE ----------
+\* 'equal' = node for node; deviation: within a tolerance relative to the magnitude of the nodes
+RelTol == <<1, 65536>>
+QAbsLeq(a, b) == QSub(b, RAbs(a))[1] >= 0                                   \* |a| <= b
+EqualImpl(X, G) ==
+    IF DevEqualWithinTolerance
+    THEN Len(X) = Len(G) /\ \A i \in 1..Len(X) : QAbsLeq(QSub(X[i], G[i]), QMul(RelTol, RAbs(G[i])))
+    ELSE X = G
+\* time class: restriction to the last level when the grids are equal and time_obs is the final time, otherwise the
+\* interpolant of the data on X x T (through all nodes: it reproduces the polynomial data) at G x TO
+ObsImplT(k) ==
+    LET xf == XfSet[k.xf]
+        X == AffSeq(xf, XGrid)  T == AffSeq(xf, TGrid)  G == AffSeq(xf, GObsSet[k.g])  TO == AffSeq(xf, TObsSet[k.t])
+        D == DataT(k.c)
+    IN IF EqualImpl(X, G) /\ EqualImpl(<<T[Len(T)]>>, TO)
+       THEN F([i \in 1..Len(X) |-> << D[i][Len(T)] >>])
+       ELSE F([i \in 1..Len(G) |-> [j \in 1..Len(TO) |-> Lag2(X, T, D, G[i], TO[j])]])
+\* every observation is p(xi_obs, tau_obs) WHEREVER the grids lie: the staggered grid is interpolated, not restricted
+TobsImplExact ==
+    (Run("tobs") /\ XfRep(XfSet[pb.xf]) /\ (pb.xf # "id" \/ pb.g \in {"same", "stag", "shift5"})) => ObsImplT(pb) = ExpectT(pb)
+
+TobsMapped(k) == k.g \in {"same", "sub", "shift"} /\ k.t \in TOld /\ k.xf = "id"
 EmitTobs ==
     (Emit /\ Run("tobs")) =>
         PrintT("@@CASE " \o ToJson([kind |-> "tobs", c |-> pb.c, x |-> XGrid, T |-> TGrid, g |-> pb.g, t |-> pb.t, omap |-> pb.omap,
                                     gobs |-> GObsSet[pb.g], tobs |-> TObsSet[pb.t], data |-> DataT(pb.c),
+                                    xf |-> pb.xf, xfm |-> XfSet[pb.xf],       \* the nodes are om 2^oe + 2^se x (x, T, gobs, tobs: reference nodes)
                                     order |-> OrderOf2(GObsSet[pb.g], TObsSet[pb.t]),
                                     \* shift5 (and the ORDER grids / times): the squares of the cubic data at quarter nodes exceed
                                     \* 32 bits - the replayer applies the map
@@ -488,7 +594,8 @@ EmitTobs ==
 
 \* steady class: quadratic interpolant, data of degree <= 2 on five nodes
 Polys1 == { <<<<1>>, <<-2>>, <<3>>>>, <<<<0>>, <<1>>>> }
-SobsCases == { [kind |-> "sobs", c |-> c, g |-> g, omap |-> mp] : c \in Polys1, g \in GOld \cup GOrd, mp \in {"id", "sq", "first"} }
+SobsCases == { [kind |-> "sobs", c |-> c, g |-> g, omap |-> mp, xf |-> "id"] : c \in Polys1, g \in GOld \cup GOrd \cup {"stag"}, mp \in {"id", "sq", "first"} }
+             \cup { [kind |-> "sobs", c |-> Poly1X, g |-> g, omap |-> mp, xf |-> xf] : g \in XfGrids, mp \in {"id", "sq"}, xf \in XfNames }
 DataS(c)   == F([i \in 1..Len(XGrid) |-> Poly2(c, XGrid[i], One)])
 ExpectS(k) == F([i \in 1..Len(GObsSet[k.g]) |-> Poly2(k.c, GObsSet[k.g][i], One)])
 SobsExact ==
@@ -498,9 +605,31 @@ SobsExact ==
            /\ \A lo \in 1..3 :                                                           \* parabolas through nodes lo..lo+2
                  LET XS == [i \in 1..3 |-> XGrid[lo + i - 1]]  DS == [i \in 1..3 |-> D[lo + i - 1]]
                  IN \A i \in 1..Len(G) : Lagrange(XS, DS, G[i]) = E[i]
+\* steady class as the call computes it: the nodal values when the grids are equal, otherwise the interpolant
+ObsImplS(k) ==
+    LET xf == XfSet[k.xf]  X == AffSeq(xf, XGrid)  G == AffSeq(xf, GObsSet[k.g])  D == DataS(k.c)
+    IN IF EqualImpl(X, G) THEN D ELSE F([i \in 1..Len(G) |-> Lagrange(X, D, G[i])])
+SobsImplExact ==
+    (Run("sobs") /\ XfRep(XfSet[pb.xf])) => ObsImplS(pb) = ExpectS(pb)
+\* interpolation commutes with the change of variable (any three / four consecutive nodes): the expected values, computed
+\* in the reference variable, are the values of the interpolants on the grids where they lie
+ObsAffine ==
+    /\ (Run("sobs") /\ XfRep(XfSet[pb.xf])) =>
+          LET xf == XfSet[pb.xf]  D == DataS(pb.c)  E == ExpectS(pb)  G == AffSeq(xf, GObsSet[pb.g])
+          IN \A lo \in 1..3 :
+                LET XS == AffSeq(xf, [i \in 1..3 |-> XGrid[lo + i - 1]])  DS == [i \in 1..3 |-> D[lo + i - 1]]
+                IN \A i \in 1..Len(G) : Lagrange(XS, DS, G[i]) = E[i]
+    /\ (Run("tobs") /\ pb.xf # "id" /\ XfRep(XfSet[pb.xf])) =>
+          LET xf == XfSet[pb.xf]  D == DataT(pb.c)  E == ExpectT(pb)
+              G == AffSeq(xf, GObsSet[pb.g])  TO == AffSeq(xf, TObsSet[pb.t])
+          IN \A skip \in {1, 5} :
+                LET XR == Sub4(XGrid, skip)  TR == Sub4(TGrid, skip)
+                    DS == F([i \in 1..4 |-> [j \in 1..4 |-> D[IndexIn(XGrid, XR[i])][IndexIn(TGrid, TR[j])]]])
+                IN \A i \in 1..Len(G) : \A j \in 1..Len(TO) : Lag2(AffSeq(xf, XR), AffSeq(xf, TR), DS, G[i], TO[j]) = E[i][j]
 EmitSobs ==
     (Emit /\ Run("sobs")) =>
         PrintT("@@CASE " \o ToJson([kind |-> "sobs", c |-> pb.c, x |-> XGrid, g |-> pb.g, omap |-> pb.omap, gobs |-> GObsSet[pb.g],
+                                    xf |-> pb.xf, xfm |-> XfSet[pb.xf],
                                     order |-> OrderOf(GObsSet[pb.g]),
                                     data |-> DataS(pb.c), fwd |-> ApplyMap(pb.omap, ExpectS(pb))]) \o " @@END")
 
@@ -586,13 +715,37 @@ SeqProbS(mode, v, c) ==
 SeqProbT(mode, v, c) ==
     [kind |-> "tseq", mode |-> mode, via |-> v, m |-> SeqMatT, T |-> SeqT, method |-> "forward_euler",
      th0 |-> <<1, -1>>, th1 |-> <<0, 2>>, th2 |-> <<2, 1>>, go0 |-> c[1], to0 |-> c[2], omap |-> c[3]]
+\* ---- mode "solve": the forms, time grids and problems ------------------------------------------------------
+\* A(th, t) = A0 + t A1 + th[1] A2, f(th, t) = f0 + t f1 + Fth th, third component c0 + U0 th + (t - t_1) w.
+\* th[1] >= 0 for the parameters of the mode and the symmetric part of A is negative definite for t, th[1] >= 0, so
+\* I - dt A is regular for every step.  n = 1: boundary size, a SINGLE node.
+SolveMats ==
+    { [n |-> 1, A0 |-> <<<<-1>>>>, A1 |-> <<<<-1>>>>, A2 |-> <<<<-2>>>>, f0 |-> <<1>>, f1 |-> <<2>>, Fth |-> <<<<1, -1>>>>,
+       c0 |-> <<2>>, U0 |-> <<<<1, 1>>>>, w |-> <<3>>, x |-> <<Q(1, 2)>>],
+      [n |-> 2, A0 |-> <<<<-2, 1>>, <<1, -2>>>>, A1 |-> <<<<-1, 1>>, <<-1, 0>>>>, A2 |-> <<<<0, 1>>, <<-1, -1>>>>,
+       f0 |-> <<1, 0>>, f1 |-> <<0, 1>>, Fth |-> <<<<1, 0>>, <<1, 1>>>>, c0 |-> <<1, -1>>, U0 |-> <<<<1, 0>>, <<1, 1>>>>,
+       w |-> <<3, -5>>, x |-> <<Zero, One>>] }
+\* ONE step, two, three (non-uniform); integer levels (the replayer may hand them over as an integer array)
+SolveGrids == [one |-> << Zero, Q(1, 2) >>, two |-> << Q(1, 2), One, Two >>, three |-> << Zero, Q(1, 4), Q(1, 2), Q(3, 2) >>,
+               ione |-> << One, R(3) >>, itwo |-> << Zero, One, R(3) >>]
+SolveGridNames(v, n) == IF Level >= 2 THEN {"one", "two", "three", "ione", "itwo"}
+                        ELSE IF v = "pde" THEN (IF n = 2 THEN {"one", "two", "three", "ione"} ELSE {"one", "two", "itwo"})
+                        ELSE (IF n = 2 THEN {"one", "two"} ELSE {"one", "ione"})
+SolveProbs(v) ==
+    UNION { { [kind |-> "tseq", mode |-> "solve", via |-> v, m |-> m, T |-> SolveGrids[g], tg |-> g, method |-> me,
+               th0 |-> <<1, -1>>, th1 |-> <<0, 2>>, th2 |-> <<2, 1>>, go0 |-> "none", to0 |-> "final",
+               omap |-> IF m.n = 2 THEN "sq" ELSE "id"] : g \in SolveGridNames(v, m.n), me \in {"forward_euler", "backward_euler"} }
+            : m \in SolveMats }
+
 SeqProblems ==
     UNION { { SeqProbS("grid", v, c) : c \in SeqInitsS } \cup { SeqProbT("grid", v, c) : c \in SeqInitsT }
             \cup { SeqProbS("param", v, c) : c \in ParInitsS } \cup { SeqProbT("param", v, c) : c \in ParInitsT }
             \cup { SeqProbS("ginp", v, c) : c \in GinpInitsS } \cup { SeqProbT("ginp", v, c) : c \in GinpInitsT }
             \cup { SeqProbS("order", v, c) : c \in OrdInitsS } \cup { SeqProbT("order", v, c) : c \in OrdInitsT }
+            \cup (IF SolveDepth > 0 THEN SolveProbs(v) ELSE {})
             : v \in {"pde", "model"} }
 DepthOf(p) == CASE p.mode = "grid" -> SeqDepth [] p.mode = "param" -> ParDepth [] p.mode = "ginp" -> GinpDepth [] p.mode = "order" -> OrdDepth
+                [] p.mode = "solve" -> (IF p.via = "pde" THEN SolveDepth ELSE SolveDepth - 2)
 
 \* ---- Solve ---------------------------------------------------------------
 \* time levels 1..k of the documented recurrence (the same EulerStep as the action Step of kind "time")
@@ -603,7 +756,52 @@ Levels(p, th, k) ==
              ta   == IF p.method = "forward_euler" THEN p.T[k - 1] ELSE p.T[k]
          IN Append(prev, EulerStep(p.m, th, p.method, ta, QSub(p.T[k], p.T[k - 1]), prev[k - 1]))
 \* steady: the nodal vector u; time: the sequence of levels u_1 .. u_nt (sol[j][i] = level j, node i)
-SeqSolution(p, th) == IF p.kind = "sseq" THEN QSolve(AOf(p.m, th), FOf(p.m, th)) ELSE F(Levels(p, th, Len(p.T)))
+\* ---- mode "solve": solve() as the sequence of its assemble_step calls -----------------------------------------
+APar(m, th, t)     == QMAdd(QMAdd(IM(m.A0), QMScale(t, IM(m.A1))), QMScale(R(th[1]), IM(m.A2)))
+FPar(m, th, t)     == QVAdd(QVAdd(IV(m.f0), QVScale(t, IV(m.f1))), QMV(IM(m.Fth), IV(th)))
+ICPar(m, th, T, t) == QVAdd(QVAdd(IV(m.c0), QMV(IM(m.U0), IV(th))), QVScale(QSub(t, T[1]), IV(m.w)))
+\* the step system <<diff_op, rhs, initial_condition>> the object holds = the <<time, parameter>> the form was evaluated
+\* at last; nothing before the first solve
+NoSys == [t |-> <<0, 0>>, th |-> <<>>]
+\* assemble_step(t) for the assembled parameter par: evaluates the form at (par, t).  Deviation: returns early when the
+\* system it holds was assembled at the same time - whatever parameter that was for
+AsmStep(sys, par, t) == IF DevStaleStepSystem /\ sys.t = t THEN sys ELSE [t |-> t, th |-> par]
+SvAsmTime(p, k) == IF p.method = "forward_euler" THEN p.T[k] ELSE p.T[k + 1]       \* documented time level of step k -> k + 1
+SvEuler(p, sys, dt, u) ==
+    LET A == APar(p.m, sys.th, sys.t)  f == FPar(p.m, sys.th, sys.t)
+    IN IF p.method = "forward_euler"
+       THEN F(QVAdd(QMV(QMAdd(MId(p.m.n), QMScale(dt, A)), u), QVScale(dt, f)))
+       ELSE F(QSolve(QMSub(MId(p.m.n), QMScale(dt, A)), QVAdd(u, QVScale(dt, f))))
+RECURSIVE SvFrom(_, _, _, _, _)
+SvFrom(p, par, k, lv, sys) ==
+    IF k = Len(p.T) THEN [lv |-> lv, sys |-> sys]
+    ELSE LET s1 == AsmStep(sys, par, SvAsmTime(p, k))
+         IN SvFrom(p, par, k + 1, Append(lv, SvEuler(p, s1, QSub(p.T[k + 1], p.T[k]), lv[k])), s1)
+\* solve(): assemble_step(t_1), the initial condition is the third component of THAT system, then one assemble_step per step
+SvSolve(p, par, sys) ==
+    LET s0 == AsmStep(sys, par, p.T[1])
+    IN SvFrom(p, par, 1, << ICPar(p.m, s0.th, p.T, s0.t) >>, s0)
+\* exact derivative of the levels with respect to th[kk] (the differentiated recurrence, for the Jacobian of PDEModel)
+SvAk(m, kk) == IF kk = 1 THEN IM(m.A2) ELSE F([i \in 1..m.n |-> [j \in 1..m.n |-> Zero]])
+RECURSIVE SvSensFrom(_, _, _, _, _, _)
+SvSensFrom(p, th, kk, lv, k, dl) ==
+    IF k = Len(p.T) THEN dl
+    ELSE LET ta == SvAsmTime(p, k)  dt == QSub(p.T[k + 1], p.T[k])  A == APar(p.m, th, ta)
+             fk == MCol(IM(p.m.Fth), kk)
+             d1 == IF p.method = "forward_euler"
+                   THEN F(QVAdd(QVAdd(dl[k], QVScale(dt, QMV(A, dl[k]))), QVScale(dt, QVAdd(QMV(SvAk(p.m, kk), lv[k]), fk))))
+                   ELSE F(QSolve(QMSub(MId(p.m.n), QMScale(dt, A)),
+                                 QVAdd(dl[k], QVScale(dt, QVAdd(QMV(SvAk(p.m, kk), lv[k + 1]), fk)))))
+         IN SvSensFrom(p, th, kk, lv, k + 1, Append(dl, d1))
+SvSens(p, th, kk) == SvSensFrom(p, th, kk, SvSolve(p, th, NoSys).lv, 1, << MCol(IM(p.m.U0), kk) >>)
+\* Jacobian of PDEModel.forward = map o (last level): column kk
+SvJac(p, th) ==
+    LET u == SvSolve(p, th, NoSys).lv[Len(p.T)]
+    IN F([kk \in 1..2 |-> ApplyMapD(p.omap, u, SvSens(p, th, kk)[Len(p.T)])])
+
+SeqSolution(p, th) == IF p.kind = "sseq" THEN QSolve(AOf(p.m, th), FOf(p.m, th))
+                      ELSE IF p.mode = "solve" THEN SvSolve(p, th, NoSys).lv
+                      ELSE F(Levels(p, th, Len(p.T)))
 
 \* ---- Observe -------------------------------------------------------------
 \* tensor-product Lagrange interpolation (= Lag2) of the levels sol[b][a] (level b, node a) on X x T at all points G x TO,
@@ -653,10 +851,12 @@ MappedObs(p, v) == IF p.kind = "sseq" THEN ApplyMap(p.omap, v) ELSE <<>>
 \* parobj     : the IDENTITY of the array assembled last ("fresh": an array nobody else holds, e.g. a copy)
 \* par        : the value the assembled system belongs to (implementation shaped: see DevAssembleSkipsSameObject)
 SeqNew(p) ==
-    LET gs == GridSolOf(p, "X0")
+    LET gs == IF p.mode = "solve" THEN p.m.x ELSE GridSolOf(p, "X0")
         go == IF p.go0 = "none" THEN gs ELSE GridObsOf(p, p.go0)
-        to == IF p.kind = "tseq" THEN SeqTimeObs[p.to0] ELSE <<>>
+        to == IF p.mode = "solve" THEN << p.T[Len(p.T)] >> ELSE IF p.kind = "tseq" THEN SeqTimeObs[p.to0] ELSE <<>>
     IN [gs |-> gs, go |-> go,
+        \* mode "solve": the step system the object holds after construct - assemble(th0) - solve
+        asm |-> IF p.mode = "solve" THEN SvSolve(p, p.th0, NoSys).sys ELSE NoSys,
         godef |-> p.go0 = "none",                  \* grid_obs was given as None (it IS grid_sol)
         to |-> to,
         eq |-> go = gs,                            \* cached decision "no interpolation in space"
@@ -734,7 +934,7 @@ Assemble(th) ==
 
 \* pde.solve() after a new assembly
 Solve ==
-    /\ IsSeq /\ Len(hist) < DepthOf(pb) /\ pb.via = "pde"
+    /\ IsSeq /\ Len(hist) < DepthOf(pb) /\ pb.via = "pde" /\ pb.mode # "solve"
     /\ obj.par # obj.solpar
     /\ LET o == [obj EXCEPT !.sol = SeqSolution(pb, obj.par), !.solpar = obj.par]
        IN /\ obj' = o
@@ -827,7 +1027,74 @@ Reassign(slot) ==
           /\ hist' = Append(hist, Entry("reassign", slot, o[slot], <<>>, o))
     /\ SeqFrame
 
+\* ---- mode "solve": several parameters through one time-dependent object -----------------------------------
+SvThetas == IF Level < 2 THEN {pb.th0, pb.th1} ELSE {pb.th0, pb.th1, pb.th2}
+\* pde.assemble(th) - stores the parameter; the step system the object holds stays what it is
+SvAssemble(th) ==
+    /\ SeqCan /\ pb.mode = "solve" /\ pb.via = "pde"
+    /\ th \in SvThetas /\ th # obj.par
+    /\ LET o == [obj EXCEPT !.par = th, !.want = th, !.parobj = "fresh"]
+       IN /\ obj' = o
+          /\ hist' = Append(hist, Entry("assemble", "", [th |-> th], <<>>, o))
+    /\ SeqFrame
+\* pde.solve() (after a new assemble, or once more for the same parameter) followed by pde.observe(solution)
+SvSolveAct ==
+    /\ IsSeq /\ Len(hist) < DepthOf(pb) /\ pb.mode = "solve" /\ pb.via = "pde"
+    /\ (LastIs({"assemble"}) \/ CountOf({"solve"}) = CountOf({"assemble"}))          \* at most one solve without a new assemble
+    /\ LET r == SvSolve(pb, obj.par, obj.asm)
+           o == [obj EXCEPT !.sol = r.lv, !.solpar = obj.par, !.asm = r.sys]
+       IN /\ obj' = o
+          /\ hist' = Append(hist, Entry("solve", IF LastIs({"assemble"}) THEN "" ELSE "again", [th |-> obj.par, sol |-> r.lv], ObserveBy(pb, o), o))
+    /\ SeqFrame
+\* PDEModel.forward(th): th another parameter, or (once) the same again
+SvForward(th) ==
+    /\ SeqCan /\ pb.mode = "solve" /\ pb.via = "model"
+    /\ th \in SvThetas
+    /\ (th = obj.par => (LastIs({"forward"}) /\ \A i \in 1..Len(hist) : ~(hist[i].a = "forward" /\ hist[i].arg = "again")))
+    /\ LET r == SvSolve(pb, th, obj.asm)
+           o == [obj EXCEPT !.par = th, !.want = th, !.parobj = "fresh", !.solpar = th, !.sol = r.lv, !.asm = r.sys]
+       IN /\ obj' = o
+          /\ hist' = Append(hist, Entry("forward", IF th = obj.par THEN "again" ELSE "", [th |-> th, sol |-> r.lv], ObserveBy(pb, o), o))
+    /\ SeqFrame
+\* PDEModel.gradient(direction, th) with the Jacobian of the pipeline supplied: no call on the PDE object, answered with the
+\* Jacobian AT th - which need not be the parameter of the last forward evaluation
+SvGradient(th) ==
+    /\ SeqCan /\ pb.mode = "solve" /\ pb.via = "model"
+    /\ th \in {pb.th0, pb.th1} /\ LastIs({"forward"}) /\ CountOf({"gradient"}) < 2
+    /\ hist' = Append(hist, Entry("gradient", "", [th |-> th, jac |-> SvJac(pb, th)], <<>>, obj))
+    /\ UNCHANGED obj
+    /\ SeqFrame
+
 \* ---- invariants ------------------------------------------------------------
+\* mode "solve": after every Solve / Forward the stored levels satisfy the documented recurrence FROM THE INITIAL CONDITION
+\* FOR THE PARAMETER ASSEMBLED LAST (a different algebraic form than the one SvEuler computes with), the call returned
+\* these levels, and the observation is the last level
+SeqSolveCurrent ==
+    (IsSeq /\ pb.mode = "solve" /\ (hist = <<>> \/ LastIs({"solve", "forward"}))) =>
+        LET th == obj.par  u == obj.sol
+        IN /\ obj.solpar = th /\ Len(u) = Len(pb.T)
+           /\ (hist # <<>> => hist[Len(hist)].val.sol = u /\ hist[Len(hist)].val.th = th
+                               /\ hist[Len(hist)].obs = F([i \in 1..pb.m.n |-> << u[Len(pb.T)][i] >>]))
+           /\ u[1] = QVAdd(IV(pb.m.c0), QMV(IM(pb.m.U0), IV(th)))
+           /\ \A i \in 1..(Len(pb.T) - 1) :
+                 LET dt == QSub(pb.T[i + 1], pb.T[i])
+                     tl == IF pb.method = "forward_euler" THEN pb.T[i] ELSE pb.T[i + 1]
+                     ua == IF pb.method = "forward_euler" THEN u[i] ELSE u[i + 1]
+                 IN QVSub(u[i + 1], u[i]) = QVScale(dt, QVAdd(QMV(APar(pb.m, th, tl), ua), FPar(pb.m, th, tl)))
+\* the Jacobian a Gradient call is answered with satisfies the differentiated recurrence at the parameter of THAT call
+SeqSensCurrent ==
+    (IsSeq /\ pb.mode = "solve" /\ LastIs({"gradient"})) =>
+        LET th == hist[Len(hist)].val.th  u == SvSolve(pb, th, NoSys).lv  nt == Len(pb.T)
+        IN \A kk \in 1..2 :
+              LET d == SvSens(pb, th, kk)
+              IN /\ d[1] = MCol(IM(pb.m.U0), kk)
+                 /\ \A i \in 1..(nt - 1) :
+                       LET dt == QSub(pb.T[i + 1], pb.T[i])
+                           tl == IF pb.method = "forward_euler" THEN pb.T[i] ELSE pb.T[i + 1]
+                           a  == IF pb.method = "forward_euler" THEN i ELSE i + 1
+                       IN QVSub(d[i + 1], d[i]) = QVScale(dt, QVAdd(QVAdd(QMV(APar(pb.m, th, tl), d[a]), QMV(SvAk(pb.m, kk), u[a])),
+                                                                  MCol(IM(pb.m.Fth), kk)))
+                 /\ hist[Len(hist)].val.jac[kk] = ApplyMapD(pb.omap, u[nt], d[nt])
 \* every Observe / Forward returns the observation for the CURRENT grids and times (the grids handed over last; silent
 \* while an array handed over has been modified in place and not handed over again): entry i (row i, column j) is the value
 \* at the node grid_obs[i] (and the time time_obs[j]) - ObsNow looks every node / time up, whatever their order
@@ -844,7 +1111,7 @@ SeqFlagFresh == IsSeq => obj.eq = (obj.go = obj.gs)
 \* the last solution solves the discrete problem of the parameter it was assembled for; after Solve / Forward that is
 \* the parameter assembled last
 SeqSolutionCurrent ==
-    (IsSeq /\ (hist = <<>> \/ LastIs({"solve", "forward", "pipeline"}))) =>
+    (IsSeq /\ pb.mode # "solve" /\ (hist = <<>> \/ LastIs({"solve", "forward", "pipeline"}))) =>
         /\ obj.solpar = obj.par
         /\ IF pb.kind = "sseq" THEN QMV(AOf(pb.m, obj.solpar), obj.sol) = FOf(pb.m, obj.solpar)
            ELSE /\ obj.sol[1] = QVAdd(IV(pb.m.c0), QMV(IM(pb.m.U0), IV(obj.solpar)))
@@ -883,11 +1150,12 @@ SeqBounds == IsSeq => /\ Len(hist) <= DepthOf(pb) /\ CountOf(Setters \cup {"muta
 
 EmitSeq ==
     \* mode "param": Use is enabled in every state below the bound, so the behaviours of full length contain every prefix
-    (Emit /\ IsSeq /\ LastIs(ObsActs) /\ (pb.mode = "param" => Len(hist) = ParDepth)) =>
+    \* mode "solve": likewise (an Assemble / Solve / Forward is enabled in every state below the bound)
+    (Emit /\ IsSeq /\ (IF pb.mode = "solve" THEN Len(hist) = DepthOf(pb) ELSE LastIs(ObsActs)) /\ (pb.mode = "param" => Len(hist) = ParDepth)) =>
         PrintT("@@CASE " \o ToJson(
             [kind |-> pb.kind, mode |-> pb.mode, via |-> pb.via, m |-> pb.m, T |-> IF pb.kind = "tseq" THEN pb.T ELSE <<>>,
              method |-> IF pb.kind = "tseq" THEN pb.method ELSE "", th0 |-> pb.th0, th1 |-> pb.th1, th2 |-> pb.th2,
-             go0 |-> pb.go0, to0 |-> pb.to0, omap |-> pb.omap,
+             go0 |-> pb.go0, to0 |-> pb.to0, omap |-> pb.omap, tg |-> IF pb.mode = "solve" THEN pb.tg ELSE "",
              new |-> LET o == SeqNew(pb) IN [gs |-> o.gs, go |-> o.go, to |-> o.to, sol |-> o.sol, heap |-> o.heap],
              hist |-> hist]) \o " @@END")
 
@@ -921,5 +1189,9 @@ Next == \/ Start
         \/ \E a \in ArgNames : Use(a)
         \/ \E slot \in Slots, v \in GinpAllVals : MutateGrid(slot, v)
         \/ \E slot \in Slots : Reassign(slot)
+        \/ \E th \in SeqThetas : SvAssemble(th)
+        \/ SvSolveAct
+        \/ \E th \in SeqThetas : SvForward(th)
+        \/ \E th \in SeqThetas : SvGradient(th)
 Spec == Init /\ [][Next]_vars
 =============================================================================
